@@ -414,6 +414,18 @@ NEW_NOTE = {
     "C05": "Partial: when a queue is full is an input (stall events); which of several connections found ready in one turn of the main loop is served first is not predicted (any order is "
            "accepted); auto-start holding is C19's; the daemon is single-threaded, so 'the moment the bus processes it' is a step of the model.",
 }
+# ---- round 8 ----
+ADD_TEXT["C07"] += (" Round 8: 'AddMatch accepts exactly the rule strings of the specified grammar and quoting' is a theorem: Spec/MatchGrammar.lean generates rule texts with their "
+                    "meaning (items key=value separated by commas, blanks around keys, values made of plain characters, '...' pieces, \\' and literal backslashes) independently of the "
+                    "tokenizer, and tokenize_iff_bounded_grammar proves that tokenize_rule succeeds with pairs kvs iff the text is such a rule text with these pairs, for every byte string "
+                    "(tokenize_complete / tokenize_sound for up to 16 items - beyond that the tokenizer stops reading, which is in the statement as RuleTextN.cut and outside the property's "
+                    "quantifier, 'up to the per-rule key limits'); parse_accepts_iff lifts it to AddMatch's verdict. RemoveMatch: remove_removes_one (exactly one rule goes, one equal to the "
+                    "argument, the most recently added such, the others stay in order), remove_fails_iff (MatchRuleNotFound iff no equal rule), remove_after_add.")
+NEW_NOTE["C07"] = ("Trusted base: Lean 4.33 kernel and the axioms printed by #print axioms for each listed theorem (subset of propext, Classical.choice, Quot.sound; no native_decide/bv_decide, "
+                   "no sorry/admit/axiom); the Spec layer (lean/Dbus/Spec, here Spec/MatchGrammar.lean: the reading of the specification's rule syntax) as the meaning of 'right'; T-tie "
+                   "gen/tab_*.c+render.py+gcc; K-tie harness, generators and the compiled Lean driver. Modelled, not verified: every line of C; heap safety/termination are sanitizer "
+                   "observations on the generated inputs. The cleanup of rules at disconnect (incl. the recorded GC quirk) is compared against the daemon on every history; the per-key value "
+                   "checks are the C16 predicates (proved equal to the grammars there); strtoul's reading of the N in argN is modelled, not specified.")
 for _k, _v in ADD_TEXT.items():
     CHECKS[_k]["text"] = CHECKS[_k]["text"].rstrip() + _v
 for _k, _v in NEW_NOTE.items():
